@@ -65,7 +65,10 @@ def main():
 
     def run_demo():
         shutil.copy(demo, demo_dst)
-        rc, out = sh(["go", "test", "-count=1", "-vet=off", "-run", runpat, "." if pkgdir == "." else "./" + pkgdir + "/"], cwd=WT)
+        env = dict(ENV)
+        if "synctest" in demo_src:
+            env["GOEXPERIMENT"] = "synctest"  # demonstrations under virtual time need the go1.24 experiment
+        rc, out = sh(["go", "test", "-count=1", "-vet=off", "-run", runpat, "." if pkgdir == "." else "./" + pkgdir + "/"], cwd=WT, env=env)
         os.remove(demo_dst)
         return rc, out[-1500:]
 
